@@ -259,6 +259,11 @@ def run(pid, tier, seed, t0, asbuilt=None):
     vlib.write_ndjson(gsched, goals)
     gtrace = os.path.join(d, "goals-trace.ndjson")
     grep_ = json.loads(vlib.run_harness("pool", ["replay", "--in", gsched, "--out", gtrace, "--uris", "http://a.test"]))
+    # the same behaviours again with the harsh drain (connections die instead of coming back to the pool)
+    gtrace2 = os.path.join(d, "goals-trace-harsh.ndjson")
+    grep2 = json.loads(vlib.run_harness("pool", ["replay", "--harsh-drain", "--in", gsched, "--out", gtrace2, "--uris", "http://a.test"]))
+    grep_["steps"] += grep2["steps"]
+    grep_["drifted"] += grep2["drifted"]
 
     # ---- 4. random walks on the real pool
     wtraces = []
@@ -277,7 +282,7 @@ def run(pid, tier, seed, t0, asbuilt=None):
     all_viol = []
     nrec = 0
     samples = []
-    for path in [rtrace, gtrace] + [w for w, _ in wtraces]:
+    for path in [rtrace, gtrace, gtrace2] + [w for w, _ in wtraces]:
         viol, r = monitor(pid, path)
         trace = vlib.read_ndjson(path)
         nrec += len(trace)
